@@ -508,9 +508,13 @@ def r7_overrides(ctx, sym):
         other = ClassObj('explain', bases=[base], title='explain title')
         root.own.setdefault('title', None)
         root.own.setdefault('message', None)
-        classes = {'base': base, 'sub': sub, 'other': other, 'root': root}
+        # (a second, distinct class with the same __name__ as `sub`: pedal ships such pairs, e.g. the two
+        # indentation_error classes of the source and sandbox tools)
+        twin = ClassObj('gently', bases=[base], title='twin title')
+        classes = {'base': base, 'sub': sub, 'other': other, 'root': root, 'twin': twin}
         before = {k: (c.attrs['title'], c.attrs['message']) for k, c in classes.items()}
-        report = symexec.self_obj(rmod, 'Report', overridden_feedbacks=set())
+        registry = symexec.init_literals(rmod, 'Report').get('overridden_feedbacks', set())
+        report = symexec.self_obj(rmod, 'Report', overridden_feedbacks=type(registry)())
         fd = symexec.new_fd(sym, mod)
         fd.calls['vars'] = lambda c: c.own if isinstance(c, ClassObj) else {}
 
@@ -543,7 +547,8 @@ def r7_overrides(ctx, sym):
                     # outcome); what was overridden before it must still be restored by clear()
                     if not (e.kind == 'AttributeError' and any(f.startswith('no_such') for f in fields)):
                         raise
-            registered = set(report.attrs['overridden_feedbacks'])
+            held = report.attrs['overridden_feedbacks']
+            registered = set(held.values()) if isinstance(held, dict) else set(held)
             fd.call_function(cof, [], bound_self=report)
         except Raised as e:
             return 'raises %s (%s)' % (e.kind, e.detail), before, None, None
@@ -569,6 +574,9 @@ def r7_overrides(ctx, sym):
         [('sub', {'message': 'M'}), ('sub', {'message': 'M2', 'title': 'T'}), ('sub', {'title': 'T2'})],
         [('other', {'title': 'C'}), ('other', {'title': 'C2'}), ('other', {'message': 'M'}), ('other', {'message': 'M2'})],
         [('sub', {'title': 'B'}), ('base', {'title': 'A'}), ('sub', {'title': 'B2'}), ('base', {'title': 'A2'})],
+        # two distinct classes that share a __name__
+        [('sub', {'title': 'B'}), ('twin', {'title': 'B2'})],
+        [('twin', {'message': 'M'}), ('sub', {'message': 'M2'}), ('twin', {'title': 'T'})],
     ]
     for steps in sequences:
         tag = ';'.join('%s.override(%s)' % (w, ','.join('%s=%r' % kv for kv in f.items())) for w, f in steps)
